@@ -434,7 +434,10 @@ func (e *BinaryOpExpr) execInBatch(chunk []KVPair, number bool, ctx *ExecuteCtx)
 					cmp, err = execStringCompare(left, lval, "=")
 				}
 				if err != nil {
-					return nil, err
+					// An element of a computed list that cannot be compared with
+					// the left operand: the row is not in the list (as in row mode)
+					cmpRet = false
+					break
 				}
 				if cmp {
 					cmpRet = true
